@@ -99,7 +99,7 @@ pub fn ordered_binders(b: &syn::Block) -> Vec<String> {
 }
 pub fn is_dropped_macro(m: &syn::Macro) -> bool {
     let p = nospace(&m.path.to_token_stream().to_string());
-    p.starts_with("log::") || p == "eprintln" || p == "println" || p == "debug_assert" || p == "debug_assert_eq" || p == "dbg"
+    (p.starts_with("log::") && p != "log::log_enabled") || p == "eprintln" || p == "println" || p == "debug_assert" || p == "debug_assert_eq" || p == "dbg"
 }
 /// G7: a strong handle obtained by an upgrade must not be alive at a sleep (a timer body that keeps one across its sleep keeps its own
 /// actor alive for a period). A binding made from a call of one of `ups` (by `let`, `let .. else`, `if let`, `while let`, a `match` arm)
